@@ -254,6 +254,7 @@ mutual
     | .date _ => true
     | .tdelta _ => true
     | .cdelta _ => true
+    | .fdt _ => true
     | .nat => true
     | .list xs => EVal.keysOkList xs
     | .tuple xs => EVal.keysOkList xs
